@@ -142,58 +142,60 @@ class C10(Prop):
         T = tier == "thorough"
         viol = []
         n = 0
-
-        def add(v):
-            if v and len(viol) < 5:
-                viol.append(v)
-
+        scen = []
         # residues: the link delivers 1..3 bytes of a header at some read and then behaves as scripted
         for chmax in (1, 3):
             for residue in (b"\x55", b"\x55\x06", b"\x55\x06\x00", b"\x00\x55", b"\x00\x00\x55"):
                 for at_read in (0, 1, 2, 5):
                     for dflt in ("s", "o"):
                         for high in (False, True):
-                            def hook(sim, dev, link, residue=residue, at_read=at_read):
-                                orig = link._read
-                                state = {"n": 0}
-
-                                def rd():
-                                    state["n"] += 1
-                                    if state["n"] == at_read + 1:
-                                        dev.rx[0:0] = residue
-                                    return orig()
-                                link._read = rd
-                                link._fread = rd
-                            r = run_connect(chmax, 3, 0, "", dflt, high_level=high, link_hook=hook,
-                                            time_limit=bound_tenths(chmax) / 10 + 50)
-                            n += 1
-                            add(judge(r, chmax, f"residue={residue.hex()} at read {at_read} default={dflt} high={high}", must_connect=False))
+                            scen.append({"kind": "residue", "chmax": chmax, "blob": residue.hex(), "at": at_read,
+                                         "dflt": dflt, "high": high, "prepend": True})
         # seeded noise and poison headers injected at the first reads
         for it in range(120 if T else 30):
-            chmax = rng.randrange(1, 5)
             poison = it % 3 == 0
             blob = (bytes([0x55, rng.randrange(7, 256), rng.randrange(0, 3), rng.randrange(0, 9)]) if poison
                     else bytes(rng.choice([0x55, 0, 6, 7, rng.randrange(256)]) for _ in range(rng.randrange(1, 40))))
-            at = rng.randrange(0, 12)
-            dflt = rng.choice("oos")
-
-            def hook(sim, dev, link, blob=blob, at=at):
-                orig = link._read
-                state = {"n": 0}
-
-                def rd():
-                    state["n"] += 1
-                    if state["n"] == at + 1:
-                        dev.rx += blob
-                    return orig()
-                link._read = rd
-                link._fread = rd
-            high = bool(it & 1)
-            r = run_connect(chmax, 3, 0, "", dflt, high_level=high, link_hook=hook, time_limit=bound_tenths(chmax) / 10 + 50)
+            scen.append({"kind": "poison" if poison else "noise", "chmax": rng.randrange(1, 5), "blob": blob.hex(),
+                         "at": rng.randrange(0, 12), "dflt": rng.choice("oos"), "high": bool(it & 1), "prepend": False})
+        for sc in scen:
             n += 1
-            add(judge(r, chmax, f"noise={blob.hex()} at read {at} default={dflt} high={high}", must_connect=False))
+            v = run_scenario(sc)
+            if v and len(viol) < 5:
+                viol.append(v)
         ev["coverage"]["fault_scenarios"] = n
         return viol
+
+    def replay(self, obj):
+        if "scenario_params" in obj:
+            return run_scenario(obj["scenario_params"])
+        return self.oracle(obj["case"])
+
+
+def run_scenario(sc):
+    """one termination scenario (bytes injected into the link at a given read), judged by the property"""
+    blob = bytes.fromhex(sc["blob"])
+
+    def hook(sim, dev, link):
+        orig = link._read
+        state = {"n": 0}
+
+        def rd():
+            state["n"] += 1
+            if state["n"] == sc["at"] + 1:
+                if sc["prepend"]:
+                    dev.rx[0:0] = blob
+                else:
+                    dev.rx += blob
+            return orig()
+        link._read = rd
+        link._fread = rd
+    r = run_connect(sc["chmax"], 3, 0, "", sc["dflt"], high_level=sc["high"], link_hook=hook,
+                    time_limit=bound_tenths(sc["chmax"]) / 10 + 50)
+    v = judge(r, sc["chmax"], f"{sc['kind']}={sc['blob']} at read {sc['at']} default={sc['dflt']} high={sc['high']}")
+    if v:
+        v["scenario_params"] = sc
+    return v
 
 
 def judge(r, chmax, what, must_connect=False):
@@ -201,6 +203,9 @@ def judge(r, chmax, what, must_connect=False):
     if "exc" in r:
         return {"key": "does-not-terminate", "what": f"connect/disconnect did not terminate in the time budget ({what}): {r['exc']}",
                 "expected": f"return or raise within {bound_tenths(chmax) / 10} s + disconnect", "observed": r["exc"], "scenario": what}
+    if r["errors"] and any(k in r["errors"][0][1] for k in ("TimeLimit", "Spin", "Deadlock")):
+        return {"key": "does-not-terminate", "what": f"connect/disconnect did not terminate in the time budget ({what}): {r['errors'][0]}",
+                "expected": f"return or raise within {bound_tenths(chmax) / 10} s + disconnect", "observed": repr(r["errors"][0]), "scenario": what}
     if r["errors"]:
         return {"key": "thread-died", "what": f"library thread died ({what}): {r['errors'][0]}", "expected": "-", "observed": repr(r["errors"][0]), "scenario": what}
     if r["t"] * 10 > bound_tenths(chmax) + 1:
